@@ -181,28 +181,32 @@ def child_env():
     return env
 
 
-def pristine_replay(pid, case, timeout=600):
+def pristine_replay(pid, case, timeout=900, shrink_bucket=None, want_case=False):
     """returns (bucket, detail) if the case fails in a fresh process, None if it
-    passes, ('HARNESS', msg) on a harness problem"""
+    passes, ('HARNESS', msg) on a harness problem. With shrink_bucket the child
+    first shrinks the case (staying in that bucket) and replays the result."""
     import tempfile
 
     fd, path = tempfile.mkstemp(suffix=".json", dir=os.path.join(VERIF, "build"))
     with os.fdopen(fd, "w") as f:
-        json.dump({"property": pid, "case": case}, f)
+        json.dump({"property": pid, "case": case, "shrink_bucket": shrink_bucket}, f)
+    out = None
     try:
         r = subprocess.run(
             [PY, os.path.join(VERIF, "check"), pid, "--replay", path, "--machine"],
             capture_output=True, text=True, timeout=timeout, env=child_env(), cwd=VERIF,
         )
+        for line in r.stdout.splitlines():
+            if line.startswith("REPLAY-RESULT "):
+                res = json.loads(line[len("REPLAY-RESULT "):])
+                out = (tuple(res["result"]) if res["result"] else None, res.get("case", case))
+        if out is None:
+            out = (("HARNESS", "replay produced no result: rc=%s %s" % (r.returncode, (r.stderr or "")[-500:])), case)
     except subprocess.TimeoutExpired:
-        return ("HARNESS", "replay timeout")
+        out = (("HARNESS", "replay timeout"), case)
     finally:
         os.unlink(path)
-    for line in r.stdout.splitlines():
-        if line.startswith("REPLAY-RESULT "):
-            res = json.loads(line[len("REPLAY-RESULT "):])
-            return tuple(res) if res else None
-    return ("HARNESS", "replay produced no result: rc=%s %s" % (r.returncode, (r.stderr or "")[-500:]))
+    return out if want_case else out[0]
 
 
 # --------------------------------------------------------------------------
@@ -254,22 +258,37 @@ def finish(mod, total, tier, seed, t0):
         for e in total.harness_errors[:5]:
             sys.stderr.write("HARNESS-ERROR %s\n" % e)
         rc = 2
-    # 1. campaign failures
+    # 1. campaign failures: every bucket that is not a listed finding is shrunk and
+    #    confirmed in a pristine interpreter (in parallel)
+    todo = []
     for bucket, f in sorted(total.failures.items()):
         e = match_known(bucket, known)
         if e is not None:
             known_hit[e["id"]] += f["count"]
-            continue
-        case = f["case"]
-        if hasattr(mod, "shrink") and os.environ.get("VERIF_NOSHRINK") != "1":
-            try:
-                case = jsonable(mod.shrink(case, bucket))
-            except Exception:
-                sys.stderr.write("shrink failed: %s\n" % traceback.format_exc()[-800:])
-        res = pristine_replay(pid, case)
-        if res is None and case is not f["case"]:
-            case = f["case"]
-            res = pristine_replay(pid, case)
+        else:
+            todo.append((bucket, f))
+
+    def confirm(bf):
+        bucket, f = bf
+        do_shrink = hasattr(mod, "shrink") and os.environ.get("VERIF_NOSHRINK") != "1"
+        res, case = pristine_replay(pid, f["case"], shrink_bucket=bucket if do_shrink else None, want_case=True)
+        return bucket, f, res, case
+
+    if os.environ.get("VERIF_NOCONFIRM") == "1":  # development aid: collect buckets only
+        sys.stderr.write("note: VERIF_NOCONFIRM=1, %d unknown buckets left unconfirmed\n" % len(todo))
+        for bucket, f in todo:
+            sys.stderr.write("unconfirmed bucket=%s count=%d detail=%s\n" % (bucket, f["count"], f["detail"][:300]))
+        todo = []
+    if todo:
+        from concurrent.futures import ThreadPoolExecutor
+
+        with ThreadPoolExecutor(max_workers=min(12, len(todo))) as ex:
+            results = list(ex.map(confirm, todo[:200]))
+        if len(todo) > 200:
+            sys.stderr.write("note: %d further unknown buckets not confirmed individually\n" % (len(todo) - 200))
+    else:
+        results = []
+    for bucket, f, res, case in results:
         if res is None:
             if getattr(mod, "HISTORY_IS_VIOLATION", False):
                 res = (bucket, f["detail"])
